@@ -25,6 +25,7 @@ type AssertStat struct {
 
 type Violation struct {
 	Harness string            `json:"harness"`
+	Prop    string            `json:"property,omitempty"`
 	Tier    string            `json:"tier"`
 	Label   string            `json:"label"`
 	Kind    string            `json:"kind"` // assert | panic
@@ -211,7 +212,7 @@ func (p *Path) obligation(label, kind, msg string, cond *Term) {
 		h.mu.Lock()
 		st.Sat++
 		if countViol(h.Viol, label, "") < h.maxViol {
-			h.Viol = append(h.Viol, Violation{Harness: h.Name, Tier: h.Tier, Label: label, Kind: kind, Msg: msg, Inputs: p.modelToInputs(model), Choices: append([]int(nil), p.choices...)})
+			h.Viol = append(h.Viol, Violation{Harness: h.Name, Prop: h.Prop, Tier: h.Tier, Label: label, Kind: kind, Msg: msg, Inputs: p.modelToInputs(model), Choices: append([]int(nil), p.choices...)})
 		}
 		h.mu.Unlock()
 	case Unknown:
@@ -227,7 +228,7 @@ func (p *Path) obligation(label, kind, msg string, cond *Term) {
 			if r2 == Sat {
 				h.mu.Lock()
 				if countViol(h.Viol, label, id) < 1 {
-					h.Viol = append(h.Viol, Violation{Harness: h.Name, Tier: h.Tier, Label: label, Kind: kind, Msg: msg, Inputs: p.modelToInputs(m2), Choices: append([]int(nil), p.choices...), Known: id})
+					h.Viol = append(h.Viol, Violation{Harness: h.Name, Prop: h.Prop, Tier: h.Tier, Label: label, Kind: kind, Msg: msg, Inputs: p.modelToInputs(m2), Choices: append([]int(nil), p.choices...), Known: id})
 				}
 				h.mu.Unlock()
 			} else if r2 == Unknown {
@@ -284,17 +285,21 @@ func trailStr(t []decision) string {
 // only an obligation of checks run for one of those properties; unprefixed labels always apply
 var propLabelRe = regexp.MustCompile(`^(C[0-9]{2,3}(?:\+C[0-9]{2,3})*)\.`)
 
-func (p *Path) assertion(label string, cond *Term) {
-	if m := propLabelRe.FindStringSubmatch(label); m != nil && p.hr.Prop != "" {
-		mine := false
+func labelApplies(label, prop string) bool {
+	if m := propLabelRe.FindStringSubmatch(label); m != nil && prop != "" {
 		for _, id := range strings.Split(m[1], "+") {
-			if id == p.hr.Prop {
-				mine = true
+			if id == prop {
+				return true
 			}
 		}
-		if !mine {
-			return // belongs to another property's check
-		}
+		return false
+	}
+	return true
+}
+
+func (p *Path) assertion(label string, cond *Term) {
+	if !labelApplies(label, p.hr.Prop) {
+		return // belongs to another property's check
 	}
 	p.obligation(label, "assert", "", cond)
 	// continue under the asserted condition so later obligations are independent
@@ -415,6 +420,9 @@ func (e *Engine) runPath(fn *ssa.Function, trail []decision, hr *HarnessRun, ses
 					end = "panic"
 					label := "nopanic:" + x.Site
 					p.obligation(label, "panic", x.Msg, tFalse)
+				case codecConfusion:
+					end = "codec-confusion"
+					p.obligation("INV.stored-value-read-with-the-codec-that-wrote-it:"+x.Site, "codec-confusion", x.Msg, tFalse)
 				case engineErr:
 					end = "engine-error"
 					hr.mu.Lock()
